@@ -14,6 +14,7 @@ pub mod c09;
 pub mod c10;
 pub mod c12;
 pub mod c13;
+pub mod c15;
 pub mod c17;
 pub mod c18;
 pub mod c19;
@@ -272,6 +273,7 @@ pub fn dispatch(cfg: &RunCfg, rep: &mut Report) -> bool {
         "C10" => c10::run(cfg, rep),
         "C12" => c12::run(cfg, rep),
         "C13" => c13::run(cfg, rep),
+        "C15" => c15::run(cfg, rep),
         "C17" => c17::run(cfg, rep),
         "C18" => c18::run(cfg, rep),
         "C19" => c19::run(cfg, rep),
